@@ -85,13 +85,14 @@ def _alarm(_sig, _frm):
 
 def call(fn, *args, **kw):
   """('ok', value) | ('exc', text) | ('timeout', text): the searches of identifiers.py are `while True` loops."""
+  limit = kw.pop('_limit', None) or LIMIT[0]
   old = signal.signal(signal.SIGALRM, _alarm)
-  signal.setitimer(signal.ITIMER_REAL, LIMIT[0])
+  signal.setitimer(signal.ITIMER_REAL, limit)
   try:
     return ('ok', fn(*args, **kw))
   except _Timeout:
     TIMEOUTS[0] += 1
-    return ('timeout', 'no result after %ss' % LIMIT[0])
+    return ('timeout', 'no result after %ss' % limit)
   except Exception as e:           # pylint: disable=broad-except
     return ('exc', '%s: %s' % (type(e).__name__, e))
   finally:
@@ -684,10 +685,6 @@ def run_history(hist):
   return None
 
 
-def engine_oracle(w):
-  return run_history(w['history'])
-
-
 def gen_history(ctx):
   rng = ctx.rng
   pool = [gen_name(rng)[1] for _ in range(4)] + ['A', 'a', 'if', 'If', 'Table1', 'table1', '', None, 'id', 'ID',
@@ -745,18 +742,34 @@ def resolve_and_run(hist):
   return concrete
 
 
+def engine_oracle(w):
+  st, bad = call(run_history, w['history'], _limit=30.0)
+  if st == 'timeout':
+    return ('timeout', 'engine history %r: %s' % (w['history'], bad))
+  if st != 'ok':
+    raise RuntimeError(bad)
+  return bad
+
+
 def engine_search(ctx):
   n = ctx.n(12, 300)
   for _ in range(n):
-    hist = resolve_and_run(gen_history(ctx))
+    st, hist = call(resolve_and_run, gen_history(ctx), _limit=30.0)
+    if st != 'ok':
+      ctx.log('engine history could not be generated: %s' % (hist,))
+      if st == 'timeout':
+        ctx.violation('engine:timeout', 'an AddTable/AddColumn/Rename history did not finish: %s' % hist,
+                      {'fn': 'engine', 'history': [], 'avoid': [], 'note': 'history generation itself hung'})
+        return
+      continue
     w = {'fn': 'engine', 'history': hist, 'avoid': []}
     try:
-      bad = run_history(hist)
+      bad = engine_oracle(w)
     except Exception as e:      # pylint: disable=broad-except
       ctx.log('engine history could not be run: %r' % (e,))
       continue
     ctx.count(('engine', repr(hist)), nontrivial=True, kind='engine-history')
     if bad:
       ctx.violation('engine:' + bad[0], bad[1], w)
-      if len(ctx.violations) > 20:
+      if len(ctx.violations) > 20 or bad[0] == 'timeout':
         return
